@@ -2,7 +2,7 @@
 from checks.hub_common import run_hub, replay_hub
 
 PID = "C03"
-RULE = ("the C02 shapes; at every RPC index of Commit one fault (thorough: sampled pairs) from {drop request, drop response, NotLeader, EpochNotMatch, ServerIsBusy, StaleCommand, split, another client expires the lock and resolves it, a reader pushes min-commit-ts, blackout of all requests / of all responses from that index on}; Commit's result class and, after recovery, the MVCC truth (`audit outcome`, `audit mvcc`) go to the judge; further fault kinds cancel-before / cancel-after (the caller's context of Commit ends at request i); directed triple family (primary-commit answer lost, split inside the primary batch, region errors until the back-off budget ends); pre-history and async-recovery families as in C02; shape kind insdel")
+RULE = ("the C02 shapes; at every RPC index of Commit one fault (thorough: sampled pairs) from {drop request, drop response, NotLeader, EpochNotMatch, ServerIsBusy, StaleCommand, split, another client expires the lock and resolves it, a reader pushes min-commit-ts, blackout of all requests / of all responses from that index on}; Commit's result class and, after recovery, the MVCC truth (`audit outcome`, `audit mvcc`) go to the judge; further fault kinds cancel-before / cancel-after (the caller's context of Commit ends at request i); directed triple family (primary-commit answer lost, split inside the primary batch, region errors until the back-off budget ends); pre-history and async-recovery families as in C02; shape kind insdel; round 3: aged family (transaction more than 24 h old — real async commit inside a widened safe window — or seconds old at Commit; without fault, with one random fault, and with a second client meeting the locks (`expire`) and the committer cut off (`blackout-before`) at EVERY request index), commit mode `both`")
 
 
 def run(a):
